@@ -1,8 +1,8 @@
 from props import sched_common
 
 THEOREMS = ["Dispenso.Sched." + t for t in ['C02_outstanding_exact', 'C02_credit_only_in_calls', 'C02_barrier', 'C02_barrier_no_inline_begin', 'C02_zero_observed', 'C02_wait_reports_done_only_after_zero', 'C02_wait_starts_unobserved', 'C02_bodies_complete', 'C02_tasks_accounted']]
-# (flavour, scenarios in the quick tier): 0 mixed, 1 without resize, 2 resize-heavy, 3 overloaded pool + chains, 4 workers parked between submissions
-FLAVOURS = [(0, 150), (1, 130), (3, 70), (4, 50)]
+# (flavour, scenarios in the quick tier): 0 mixed, 1 without resize, 2 resize-heavy (incl. resize(0) held in join while a ring-routed bulk arrives), 3 overloaded pool + chains, 4 workers parked between submissions, 5 exception-heavy
+FLAVOURS = [(0, 130), (1, 110), (3, 60), (4, 50), (5, 50)]
 
 
 def run(ctx, replay):
